@@ -392,9 +392,11 @@ fn format_replay(cases_path: &str, out_path: &str) {
 }
 
 fn random_text(rng: &mut Rng, fmt: &str) -> String {
-    let n = match rng.below(10) {
-        0 => 0,
-        1 => rng.range(20, 60),
+    let n = match rng.below(40) {
+        0..=3 => 0,
+        4..=7 => rng.range(20, 60),
+        // around powers of two (block sizes of readers): 64 .. 1024 units
+        8 => (64usize << rng.below(5)) - 2 + rng.below(4),
         _ => rng.range(1, 9),
     };
     let sjis_pool: Vec<char> = "AZaz09 !~\\ｱｶﾝあいんアソ表十能日本語、。".chars().collect();
@@ -405,6 +407,8 @@ fn random_text(rng: &mut Rng, fmt: &str) -> String {
                 0 if k == 0 => '\u{FEFF}',
                 1 if k == 0 => '\u{FFFE}',
                 2 if k == 0 => '\u{BBEF}',
+                // code points a decoder may use as error / sentinel values, anywhere in the text
+                8 => *rng.pick(&['\u{FFFD}', '\u{FFFC}', '\u{FFFF}', '\u{FFFE}', '\u{FEFF}', '\u{1}', '\u{7F}', '\u{80}', '\u{D7FF}', '\u{E000}', '\u{10FFFF}', '\u{1FFFF}']),
                 3 => char::from_u32(0x10000 + rng.below(0x100000) as u32).unwrap_or('x'),
                 4 => char::from_u32(0x100 * rng.range(1, 0xD7) as u32).unwrap_or('x'), // low byte 00
                 5 | 6 => char::from_u32(rng.range(1, 0xD7FF) as u32).unwrap_or('x'),
